@@ -191,6 +191,27 @@ def jobs(tier):
                 "family": "forced-optional"})
     out.append({"program": prog(2, base + [opt[0], con("TaskEndBefore", "k2", task=R("a"), value=1), con("ForceApplyNOptionalConstraints", "f", list_of_optional_constraints=[R("k1")], nb_constraints_to_apply=1)]),
                 "family": "forced-optional"})
+    # 4b. indicator constraints taking part in the conflict (and irrelevant ones)
+    ind = [new("IndicatorFromMathExpression", "i1", name="end_b", expression=E(["end", "b"])), new("IndicatorResourceIdle", "i2", resource=R("w"))]
+    Wb = [fixed("a", 1), fixed("b", 1), worker("w"), req("a", "w"), req("b", "w")]
+    for extra in (
+        [con("IndicatorBounds", "ib", indicator=R("i1"), upper_bound=1), con("TaskPrecedence", "pr", task_before=R("a"), task_after=R("b"))],
+        [con("IndicatorTarget", "it", indicator=R("i1"), value=1), con("TaskStartAt", "sa", task=R("b"), value=1)],
+        [con("IndicatorBounds", "ib", indicator=R("i2"), lower_bound=1), con("TaskPrecedence", "pr", task_before=R("a"), task_after=R("b"), kind="tight")],
+        [con("IndicatorTarget", "it", indicator=R("i2"), value=3)],
+        [con("IndicatorBounds", "ib", indicator=R("i1"), upper_bound=3), con("TaskStartAt", "sa", task=R("b"), value=0), con("TaskStartAt", "sa2", task=R("a"), value=0)],
+    ):
+        for k in (0, 1):
+            decls = list(extra)
+            if k:
+                decls.insert(1, irrelevant(0))
+            out.append({"program": prog(3, Wb + ind + decls), "family": "indicator-constraint"})
+    # 4c. constraints named like Boolean / integer unknowns of the encoding (a legal name must not change anything)
+    opt = [fixed("a", 3, optional=True), fixed("b", 1)]
+    out.append({"program": prog(2, opt + [con("OptionalTaskConditionSchedule", "cs", name="a_scheduled", task=R("a"), condition=E([">", ["start", "b"], 5]))]), "family": "name-like-unknown"})
+    out.append({"program": prog(2, opt + [con("TaskStartAfter", "cs", name="a_scheduled", task=R("b"), value=0)]), "family": "name-like-unknown"})
+    out.append({"program": prog(2, opt + [con("TaskStartAt", "cs", name="b_start", task=R("b"), value=1), con("TaskEndBefore", "ce", name="horizon", task=R("b"), value=2)]), "family": "name-like-unknown"})
+    out.append({"program": prog(2, opt + [con("TaskStartAt", "cs", name="a_scheduled", task=R("b"), value=1), con("TaskEndBefore", "ce", name="a_end", task=R("b"), value=1)]), "family": "name-like-unknown"})
     # 5. buffers (basic rules) with a constraint: concurrent buffers go through quantified assertions
     for cls in ("ConcurrentBuffer", "NonConcurrentBuffer"):
         for q, lab in ((2, "infeasible"), (1, "feasible")):
